@@ -1,7 +1,296 @@
 ------------------------------- MODULE Ubjson -------------------------------
-(* STUB - to be replaced by the Ubjson reference decoder (same interface as Cbor.tla). *)
+(***************************************************************************)
+(* Universal Binary JSON, Draft 12 (ubjson.org) reference decoder as total *)
+(* recursive operators over a byte sequence.  Written from the format      *)
+(* specification ("Type reference": value types, container types,          *)
+(* optimized format), not from any implementation.  Oracle for C07.        *)
+(*                                                                         *)
+(*   Decode(b)  ==  <<"ok", value, next>>  |  <<"err">>                    *)
+(* decodes ONE top-level item starting at 1-based position 1.              *)
+(*                                                                         *)
+(* Values are those of the shared binary data model (header of Cbor.tla):  *)
+(*   <<"uint", bs>> <<"nint", bs>>  big-endian magnitude, no leading zeros *)
+(*                    (nint n denotes -1-n).  UBJSON integers are signed   *)
+(*                    two's complement, big-endian ("UBJSON is big-endian  *)
+(*                    for all numeric values"), except uint8.              *)
+(*   <<"tstr", bytes>>  string / char / object key (well-formed UTF-8)     *)
+(*   <<"arr", seq>>  <<"map", seq of <<key, value>> >>                     *)
+(*   <<"bool", b>> <<"null">> <<"f32", bytes4>> <<"f64", bytes8>>          *)
+(* and, UBJSON only (never value-compared, Plain = FALSE):                 *)
+(*   <<"hpn", bytes>>        high-precision number (a JSON number text)    *)
+(*   <<"u8arr", seq>>        array strongly typed as uint8 (binary data)   *)
+(*   <<"rep", v, countbs>>   strongly typed array of more than RepMax      *)
+(*                           payload-free elements v (null/true/false)     *)
+(*   <<"noops", countbs>>    [$][N][#] n : "a series of n no-ops"          *)
+(*   <<"unspecified_noop">>  see NO-OP below                               *)
+(*   <<"hpn_malformed", bytes>>, <<"badtype_empty", t>>  see KNOWN DEFECTS *)
+(*                                                                         *)
+(* NO-OP.  Draft 12, value type 'N': "a valueless value ... when parsed    *)
+(* by the receiver the no-op is simply ignored"; the only placement the    *)
+(* specification shows is between the elements of an array without count.  *)
+(* It does not say whether a no-op is counted by '#', whether it may stand *)
+(* before an object key or in place of an object member's value, nor what  *)
+(* "decode one item" yields for a stream that starts with 'N' (keep-alive).*)
+(* The decoder therefore ignores 'N' between elements of an uncounted,     *)
+(* untyped array, and as soon as it meets 'N' in any other value / key     *)
+(* position it stops with the third outcome <<"dc">>: the whole input is   *)
+(* a don't-care (Decode maps it to <<"ok", <<"unspecified_noop">>, ..>>,   *)
+(* MayRefuse = TRUE, Plain = FALSE, so nothing is compared).  Everything   *)
+(* left of that 'N' has been decoded, so ill-formedness before it is still *)
+(* predicted.                                                              *)
+(***************************************************************************)
 EXTENDS Naturals, Sequences, FiniteSets
-Decode(b) == <<"err">>
-Plain(v) == TRUE
-MayRefuse(v) == FALSE
+
+Huge == 100000000          \* stands for "longer than any input we ever build"
+RepMax == 300              \* payload-free typed arrays up to this count are built explicitly
+
+At(b, i) == IF i >= 1 /\ i <= Len(b) THEN b[i] ELSE 0 - 1
+StripZeros(bs) == LET nz == {k \in 1..Len(bs) : bs[k] # 0} IN
+                  IF nz = {} THEN <<>> ELSE SubSeq(bs, CHOOSE k \in nz : \A m \in nz : k <= m, Len(bs))
+\* numeric value of a big-endian byte sequence, saturating at Huge
+RECURSIVE NumOf(_, _, _)
+NumOf(bs, k, acc) == IF k > Len(bs) THEN acc
+                     ELSE IF acc >= Huge \div 256 THEN Huge ELSE NumOf(bs, k + 1, (acc * 256) + bs[k])
+Num(bs) == NumOf(StripZeros(bs), 1, 0)
+\* bitwise NOT of every byte (real tuple)
+RECURSIVE ComplOf(_, _, _)
+ComplOf(bs, k, acc) == IF k > Len(bs) THEN acc ELSE ComplOf(bs, k + 1, Append(acc, 255 - bs[k]))
+Compl(bs) == ComplOf(bs, 1, <<>>)
+
+-----------------------------------------------------------------------------
+(* Marker bytes (Draft 12 type reference table)                            *)
+mZ == 90   mN == 78   mT == 84   mF == 70                      \* null no-op true false
+mi == 105  mU == 85   mI == 73   ml == 108  mL == 76           \* int8 uint8 int16 int32 int64
+md == 100  mD == 68   mH == 72   mC == 67   mS == 83           \* float32 float64 high-precision char string
+mAO == 91  mAC == 93  mOO == 123 mOC == 125                    \* [ ] { }
+mTy == 36  mCnt == 35                                          \* $ #
+
+\* payload width of the fixed-width integer types; 0 = not an integer type
+IntWidth(t) == CASE t = mi -> 1 [] t = mU -> 1 [] t = mI -> 2 [] t = ml -> 4 [] t = mL -> 8 [] OTHER -> 0
+\* "[$][type]": the marker of a value type or of a container type
+IsTypeMarker(t) == t \in {mZ, mN, mT, mF, mi, mU, mI, ml, mL, md, mD, mH, mC, mS, mAO, mOO}
+\* value types that consist of the marker only
+PayloadFree(t) == t \in {mZ, mT, mF}
+MarkerValue(t) == CASE t = mZ -> <<"null">> [] t = mT -> <<"bool", TRUE>> [] t = mF -> <<"bool", FALSE>>
+
+-----------------------------------------------------------------------------
+(* UTF-8 well-formedness (RFC 3629 section 4 ABNF): "string: UTF-8 encoded" *)
+Tail1(c) == c >= 128 /\ c <= 191
+RECURSIVE Utf8Ok(_, _)
+Utf8Ok(s, i) ==
+  IF i > Len(s) THEN TRUE
+  ELSE LET c == At(s, i) c1 == At(s, i + 1) c2 == At(s, i + 2) c3 == At(s, i + 3) IN
+    IF c <= 127 THEN Utf8Ok(s, i + 1)
+    ELSE IF c >= 194 /\ c <= 223 /\ Tail1(c1) THEN Utf8Ok(s, i + 2)
+    ELSE IF c = 224 /\ c1 >= 160 /\ c1 <= 191 /\ Tail1(c2) THEN Utf8Ok(s, i + 3)
+    ELSE IF ((c >= 225 /\ c <= 236) \/ c = 238 \/ c = 239) /\ Tail1(c1) /\ Tail1(c2) THEN Utf8Ok(s, i + 3)
+    ELSE IF c = 237 /\ c1 >= 128 /\ c1 <= 159 /\ Tail1(c2) THEN Utf8Ok(s, i + 3)
+    ELSE IF c = 240 /\ c1 >= 144 /\ c1 <= 191 /\ Tail1(c2) /\ Tail1(c3) THEN Utf8Ok(s, i + 4)
+    ELSE IF c >= 241 /\ c <= 243 /\ Tail1(c1) /\ Tail1(c2) /\ Tail1(c3) THEN Utf8Ok(s, i + 4)
+    ELSE IF c = 244 /\ c1 >= 128 /\ c1 <= 143 /\ Tail1(c2) /\ Tail1(c3) THEN Utf8Ok(s, i + 4)
+    ELSE FALSE
+
+(* High-precision number: "a string-encoded number ... must be written in  *)
+(* accordance with the JSON number specification" (RFC 8259 section 6):    *)
+(*   [ "-" ] ( "0" / digit1-9 *DIGIT ) [ "." 1*DIGIT ] [ ("e"/"E") ["+"/"-"] 1*DIGIT ] *)
+Digit(c) == c >= 48 /\ c <= 57
+RECURSIVE DigitsEnd(_, _)          \* position after the maximal run of digits that starts at i
+DigitsEnd(s, i) == IF Digit(At(s, i)) THEN DigitsEnd(s, i + 1) ELSE i
+JsonNumber(s) ==
+  LET i0 == IF At(s, 1) = 45 THEN 2 ELSE 1
+      i1 == IF At(s, i0) = 48 THEN i0 + 1 ELSE IF Digit(At(s, i0)) THEN DigitsEnd(s, i0) ELSE 0
+  IN IF i1 = 0 THEN FALSE
+     ELSE LET i2 == IF At(s, i1) = 46 THEN (IF Digit(At(s, i1 + 1)) THEN DigitsEnd(s, i1 + 1) ELSE 0) ELSE i1 IN
+       IF i2 = 0 THEN FALSE
+       ELSE LET i3 == IF At(s, i2) = 69 \/ At(s, i2) = 101
+                      THEN LET j == IF At(s, i2 + 1) = 43 \/ At(s, i2 + 1) = 45 THEN i2 + 2 ELSE i2 + 1 IN
+                           IF Digit(At(s, j)) THEN DigitsEnd(s, j) ELSE 0
+                      ELSE i2 IN
+            i3 = Len(s) + 1
+
+-----------------------------------------------------------------------------
+(* KNOWN DEFECTS of the implementation under test.  Each one is excluded   *)
+(* from the comparison by turning the specification's verdict "ill-formed" *)
+(* for exactly that root cause into a well-formed value of a kind that     *)
+(* KnownDefectN recognises (MayRefuse = TRUE: nothing is compared).  Set   *)
+(* the flag to FALSE to get the strict Draft-12 verdict back.  See         *)
+(* notes/C07-ubjson.md, SUSPECTED DEFECTS.                                 *)
+ExcludeKnownDefect1 == TRUE   \* 'H' payload that is not a JSON number is accepted (as a bigdec-tagged string)
+ExcludeKnownDefect2 == TRUE   \* [$][t][#] 0 with t not a type marker is accepted (as an empty container)
+KnownDefect1(v) == v[1] = "hpn_malformed"
+KnownDefect2(v) == v[1] = "badtype_empty"
+
+-----------------------------------------------------------------------------
+(* Length / count: "[length] is an integer value of any of the integer     *)
+(* types (int8, uint8, int16, int32, int64)"; "must be >= 0".              *)
+(* <<"ok", n (saturated), next, magnitude bytes>> | <<"err">>              *)
+Length(b, i) ==
+  LET t == At(b, i)  w == IntWidth(t) IN
+  IF w = 0 THEN <<"err">>                              \* end of input, or not an integer type marker
+  ELSE IF i + w > Len(b) THEN <<"err">>                \* truncated
+  ELSE LET bs == SubSeq(b, i + 1, i + w) IN
+       IF t # mU /\ bs[1] >= 128 THEN <<"err">>        \* negative (two's complement sign bit)
+       ELSE <<"ok", Num(bs), i + 1 + w, StripZeros(bs)>>
+
+\* integer value types: int8/16/32/64 signed two's complement big-endian, uint8 unsigned
+IntValue(t, bs) == IF t = mU \/ bs[1] < 128 THEN <<"uint", StripZeros(bs)>> ELSE <<"nint", StripZeros(Compl(bs))>>
+
+\* length-prefixed byte run starting at the length marker: <<"ok", bytes, next>>
+Run(b, i) ==
+  LET l == Length(b, i) IN
+  IF l[1] = "err" THEN <<"err">>
+  ELSE IF l[3] + l[2] - 1 > Len(b) THEN <<"err">>      \* truncated payload
+  ELSE <<"ok", SubSeq(b, l[3], l[3] + l[2] - 1), l[3] + l[2]>>
+
+RECURSIVE Replicate(_, _, _)
+Replicate(v, n, acc) == IF n = 0 THEN acc ELSE Replicate(v, n - 1, Append(acc, v))
+
+RECURSIVE Item(_, _), Value(_, _, _), Elems(_, _, _, _), OpenElems(_, _, _), TypedElems(_, _, _, _, _),
+          Pairs(_, _, _, _), OpenPairs(_, _, _), TypedPairs(_, _, _, _, _)
+
+\* object key: "[i][3][lat]" - the string payload without the 'S' marker
+Key(b, i) ==
+  LET r == Run(b, i) IN
+  IF r[1] = "err" THEN r
+  ELSE IF ~Utf8Ok(r[2], 1) THEN <<"err">>
+  ELSE <<"ok", <<"tstr", r[2]>>, r[3]>>
+
+\* array with count, no type: n further items, each with its own marker; no end marker
+Elems(b, i, n, acc) ==
+  IF n = 0 THEN <<"ok", acc, i>>
+  ELSE IF i > Len(b) THEN <<"err">>                    \* "must contain the specified number of child elements"
+  ELSE LET r == Item(b, i) IN IF r[1] # "ok" THEN r ELSE Elems(b, r[3], n - 1, Append(acc, r[2]))
+\* plain array: items until ']' ; no-ops between the elements are ignored
+OpenElems(b, i, acc) ==
+  IF i > Len(b) THEN <<"err">>
+  ELSE IF b[i] = mAC THEN <<"ok", acc, i + 1>>
+  ELSE IF b[i] = mN THEN OpenElems(b, i + 1, acc)
+  ELSE LET r == Item(b, i) IN IF r[1] # "ok" THEN r ELSE OpenElems(b, r[3], Append(acc, r[2]))
+\* strongly typed array of a type with payload: n payloads of type t without markers
+TypedElems(b, i, t, n, acc) ==
+  IF n = 0 THEN <<"ok", acc, i>>
+  ELSE IF i > Len(b) THEN <<"err">>
+  ELSE LET r == Value(b, i, t) IN IF r[1] # "ok" THEN r ELSE TypedElems(b, r[3], t, n - 1, Append(acc, r[2]))
+
+Pairs(b, i, n, acc) ==
+  IF n = 0 THEN <<"ok", acc, i>>
+  ELSE IF i > Len(b) THEN <<"err">>
+  ELSE IF b[i] = mN THEN <<"dc">>                      \* no-op in key position: unspecified
+  ELSE LET k == Key(b, i) IN IF k[1] # "ok" THEN k
+       ELSE LET v == Item(b, k[3]) IN IF v[1] # "ok" THEN v ELSE Pairs(b, v[3], n - 1, Append(acc, <<k[2], v[2]>>))
+OpenPairs(b, i, acc) ==
+  IF i > Len(b) THEN <<"err">>
+  ELSE IF b[i] = mOC THEN <<"ok", acc, i + 1>>
+  ELSE IF b[i] = mN THEN <<"dc">>
+  ELSE LET k == Key(b, i) IN IF k[1] # "ok" THEN k
+       ELSE LET v == Item(b, k[3]) IN IF v[1] # "ok" THEN v ELSE OpenPairs(b, v[3], Append(acc, <<k[2], v[2]>>))
+\* strongly typed object: n times key + payload of type t (for payload-free t the key alone)
+TypedPairs(b, i, t, n, acc) ==
+  IF n = 0 THEN <<"ok", acc, i>>
+  ELSE IF i > Len(b) THEN <<"err">>                    \* every pair has at least the key's length
+  ELSE IF b[i] = mN THEN <<"dc">>
+  ELSE LET k == Key(b, i) IN IF k[1] # "ok" THEN k
+       ELSE LET v == Value(b, k[3], t) IN IF v[1] # "ok" THEN v ELSE TypedPairs(b, v[3], t, n - 1, Append(acc, <<k[2], v[2]>>))
+
+(* Optimized format.  "[$][type][#][count]":                                *)
+(*  - "If a type is specified, it must be done so before a count."          *)
+(*  - "If a type is specified, a count must be specified as well."          *)
+(*  - "A count must be >= 0."  "If a count is specified the container must  *)
+(*    not specify an end-marker."                                           *)
+(*  - "A container that specifies a type must not contain any additional    *)
+(*    type markers for any contained value."                                *)
+ArrayBody(b, i) ==
+  IF At(b, i) = mTy THEN
+    LET t == At(b, i + 1) IN
+    IF i + 1 > Len(b) \/ At(b, i + 2) # mCnt THEN <<"err">>             \* truncated, or type without count
+    ELSE LET c == Length(b, i + 3) IN
+      IF c[1] = "err" THEN <<"err">>
+      ELSE IF ~IsTypeMarker(t) THEN
+             (IF ExcludeKnownDefect2 /\ c[2] = 0 THEN <<"ok", <<"badtype_empty", t>>, c[3]>> ELSE <<"err">>)
+      ELSE IF t = mN THEN <<"ok", <<"noops", c[4]>>, c[3]>>             \* "[$][N][#][I][512]" - a series of no-ops
+      ELSE IF PayloadFree(t) THEN
+             (IF c[2] <= RepMax THEN <<"ok", <<"arr", Replicate(MarkerValue(t), c[2], <<>>)>>, c[3]>>
+              ELSE <<"ok", <<"rep", MarkerValue(t), c[4]>>, c[3]>>)
+      ELSE LET r == TypedElems(b, c[3], t, c[2], <<>>) IN
+           IF r[1] # "ok" THEN r ELSE <<"ok", <<IF t = mU THEN "u8arr" ELSE "arr", r[2]>>, r[3]>>
+  ELSE IF At(b, i) = mCnt THEN
+    LET c == Length(b, i + 1) IN
+    IF c[1] = "err" THEN <<"err">>
+    ELSE LET r == Elems(b, c[3], c[2], <<>>) IN IF r[1] # "ok" THEN r ELSE <<"ok", <<"arr", r[2]>>, r[3]>>
+  ELSE LET r == OpenElems(b, i, <<>>) IN IF r[1] # "ok" THEN r ELSE <<"ok", <<"arr", r[2]>>, r[3]>>
+
+ObjectBody(b, i) ==
+  IF At(b, i) = mTy THEN
+    LET t == At(b, i + 1) IN
+    IF i + 1 > Len(b) \/ At(b, i + 2) # mCnt THEN <<"err">>
+    ELSE LET c == Length(b, i + 3) IN
+      IF c[1] = "err" THEN <<"err">>
+      ELSE IF ~IsTypeMarker(t) THEN
+             (IF ExcludeKnownDefect2 /\ c[2] = 0 THEN <<"ok", <<"badtype_empty", t>>, c[3]>> ELSE <<"err">>)
+      ELSE LET r == TypedPairs(b, c[3], t, c[2], <<>>) IN IF r[1] # "ok" THEN r ELSE <<"ok", <<"map", r[2]>>, r[3]>>
+  ELSE IF At(b, i) = mCnt THEN
+    LET c == Length(b, i + 1) IN
+    IF c[1] = "err" THEN <<"err">>
+    ELSE LET r == Pairs(b, c[3], c[2], <<>>) IN IF r[1] # "ok" THEN r ELSE <<"ok", <<"map", r[2]>>, r[3]>>
+  ELSE LET r == OpenPairs(b, i, <<>>) IN IF r[1] # "ok" THEN r ELSE <<"ok", <<"map", r[2]>>, r[3]>>
+
+\* the payload of a value of type t that starts at position i (the marker has been consumed or was given by '$')
+Value(b, i, t) ==
+  CASE t = mZ -> <<"ok", <<"null">>, i>>                                 \* null: marker only
+    [] t = mT -> <<"ok", <<"bool", TRUE>>, i>>
+    [] t = mF -> <<"ok", <<"bool", FALSE>>, i>>
+    [] t = mN -> <<"dc">>                                                \* no-op in a place the specification does not cover
+    [] IntWidth(t) > 0 ->                                                \* int8 uint8 int16 int32 int64
+         LET w == IntWidth(t) IN
+         IF i + w - 1 > Len(b) THEN <<"err">> ELSE <<"ok", IntValue(t, SubSeq(b, i, i + w - 1)), i + w>>
+    [] t = md -> IF i + 3 > Len(b) THEN <<"err">> ELSE <<"ok", <<"f32", SubSeq(b, i, i + 3)>>, i + 4>>    \* IEEE 754 single, big-endian
+    [] t = mD -> IF i + 7 > Len(b) THEN <<"err">> ELSE <<"ok", <<"f64", SubSeq(b, i, i + 7)>>, i + 8>>    \* IEEE 754 double, big-endian
+    [] t = mC -> IF i > Len(b) \/ b[i] > 127 THEN <<"err">>             \* char: one byte, "must not have a value larger than 127"
+                 ELSE <<"ok", <<"tstr", <<b[i]>>>>, i + 1>>
+    [] t = mS -> LET r == Run(b, i) IN                                   \* [S][length][UTF-8 bytes]
+                 IF r[1] = "err" THEN r ELSE IF ~Utf8Ok(r[2], 1) THEN <<"err">> ELSE <<"ok", <<"tstr", r[2]>>, r[3]>>
+    [] t = mH -> LET r == Run(b, i) IN                                   \* [H][length][JSON number text]
+                 IF r[1] = "err" THEN r
+                 ELSE IF JsonNumber(r[2]) THEN <<"ok", <<"hpn", r[2]>>, r[3]>>
+                 ELSE IF ExcludeKnownDefect1 THEN <<"ok", <<"hpn_malformed", r[2]>>, r[3]>> ELSE <<"err">>
+    [] t = mAO -> ArrayBody(b, i)
+    [] t = mOO -> ObjectBody(b, i)
+    [] OTHER -> <<"err">>                                                \* not a value marker (incl. ] } $ # and the retired draft-8/9 codes)
+
+Item(b, i) == IF i > Len(b) THEN <<"err">> ELSE Value(b, i + 1, b[i])
+
+\* whole-input decoding of the first item
+Decode(b) == LET r == Item(b, 1) IN IF r[1] = "dc" THEN <<"ok", <<"unspecified_noop">>, 1>> ELSE r
+
+-----------------------------------------------------------------------------
+(* Plain(v): v uses only kinds that binval.hpp can compare and for which    *)
+(* jsoncons documents the image (doc/ref/ubjson/ubjson.md: null, bool,      *)
+(* integers -> int64/uint64, float32/64 -> double, string -> string, array, *)
+(* object).  Not plain: high-precision numbers (image: string tagged        *)
+(* bigint/bigdec - no such kind in binval.hpp), arrays strongly typed as    *)
+(* uint8 (documented image byte_string, the decoder yields an array),       *)
+(* symbolic repetitions, no-ops, duplicate keys.                            *)
+RECURSIVE Plain(_)
+Plain(v) ==
+  CASE v[1] = "arr" -> \A k \in 1..Len(v[2]) : Plain(v[2][k])
+    [] v[1] = "map" -> /\ \A k \in 1..Len(v[2]) : Plain(v[2][k][2])
+                       /\ \A k, m \in 1..Len(v[2]) : k # m => v[2][k][1] # v[2][m][1]                  \* no duplicate keys
+    [] v[1] \in {"hpn", "hpn_malformed", "u8arr", "rep", "noops", "unspecified_noop", "badtype_empty"} -> FALSE
+    [] OTHER -> TRUE
+
+(* MayRefuse(v): well-formed (or don't-care) inputs whose verdict is not    *)
+(* compared:                                                               *)
+(*  - unspecified_noop: see NO-OP in the header;                            *)
+(*  - rep with a count of 2^24 or more: a decoder may bound the number of   *)
+(*    items it materialises (jsoncons: ubjson_options::max_items);          *)
+(*  - the known defects.                                                    *)
+RECURSIVE MayRefuse(_)
+MayRefuse(v) ==
+  CASE v[1] = "arr" \/ v[1] = "u8arr" -> \E k \in 1..Len(v[2]) : MayRefuse(v[2][k])
+    [] v[1] = "map" -> \E k \in 1..Len(v[2]) : MayRefuse(v[2][k][2])
+    [] v[1] = "unspecified_noop" -> TRUE
+    [] v[1] = "rep" -> Len(v[3]) >= 4
+    [] v[1] = "noops" -> Len(v[2]) >= 4
+    [] KnownDefect1(v) \/ KnownDefect2(v) -> TRUE
+    [] OTHER -> FALSE
 =============================================================================
